@@ -14,7 +14,24 @@ Modelling decisions (see DESIGN.md 2.2/2.3):
 * NOT modelled: copy-on-write isolation of the children's memory.
 """
 import pickle
+import weakref
 import queue as _queue
+
+
+class _WeakList(object):
+    """list of weak references (handles must stay collectable)"""
+
+    def __init__(self):
+        self._refs = []
+
+    def append(self, obj):
+        self._refs.append(weakref.ref(obj))
+
+    def __iter__(self):
+        for r in list(self._refs):
+            o = r()
+            if o is not None:
+                yield o
 
 
 class Net(object):
@@ -23,7 +40,7 @@ class Net(object):
     def __init__(self, kernel, tape):
         self.kernel = kernel
         self.tape = tape
-        self.conns = []
+        self.conns = _WeakList()
         self.queues = []
         self.procs = []
         self.stats = {"q_put": 0, "q_lost": 0, "q_delayed": 0, "pipe_send": 0, "started": 0,
@@ -39,12 +56,10 @@ class Net(object):
             return SimQueue(net)
 
         def Pipe(duplex=True):
-            a, b = SimConn(net), SimConn(net)
-            a.peer, b.peer = b, a
+            ca, cb = _Chan(), _Chan()
             me = net.kernel.me()
-            a.holders.add(me)
-            b.holders.add(me)
-            net.conns += [a, b]
+            a = SimConn(net, ca, cb, me)
+            b = SimConn(net, cb, ca, me)
             return a, b
         return Process, Queue, Pipe
 
@@ -127,16 +142,42 @@ class SimQueue(object):
         pass
 
 
-class SimConn(object):
-    def __init__(self, net):
-        self.net = net
-        self.inbox = []
-        self.peer = None
-        self.holders = set()
-        self.closed_by = set()
+class _Chan(object):
+    """one direction of a pipe: a FIFO of pickled messages and the set of open handles that can write to it"""
 
-    def _peer_open(self):
-        return any(t.alive() or t.is_main for t in self.peer.holders)
+    def __init__(self):
+        self.inbox = []
+        self.writers = weakref.WeakSet()
+
+
+class SimConn(object):
+    """a *handle* (descriptor) on one end of a duplex pipe, owned by one task.
+
+    fork semantics: Process.start() gives the child its own duplicate of every handle its parent
+    holds (and the handles in its arguments are replaced by the child's duplicates); a handle is
+    closed when its owner exits or is killed, when close() is called, or - like a real
+    Connection - when the handle object itself is garbage collected (a local variable of the
+    parent going out of scope).  recv() reports EOF once no open handle can write to this end."""
+
+    def __init__(self, net, rchan, wchan, owner):
+        self.net = net
+        self.rchan = rchan          # messages for this end
+        self.wchan = wchan          # where send() puts messages
+        self.owner = owner
+        self.open = True
+        wchan.writers.add(self)
+        net.conns.append(self)
+
+    def _dup(self, owner):
+        return SimConn(self.net, self.rchan, self.wchan, owner)
+
+    def _can_be_written(self):
+        return any(h.open and h.owner is not None and (h.owner.alive() or h.owner.is_main)
+                   for h in self.rchan.writers)
+
+    def _peer_reading(self):
+        return any(h.open and h.rchan is self.wchan and (h.owner.alive() or h.owner.is_main)
+                   for h in self.net.conns)
 
     def send(self, obj):
         k = self.net.kernel
@@ -144,9 +185,9 @@ class SimConn(object):
             return
         data = pickle.dumps(obj)
         k.yield_point("pipe.send")
-        if not self._peer_open():
+        if not self._peer_reading():
             raise BrokenPipeError(32, "Broken pipe")
-        self.peer.inbox.append(data)
+        self.wchan.inbox.append(data)
         self.net.stats["pipe_send"] += 1
         k.yield_point("pipe.send.done")
 
@@ -154,9 +195,9 @@ class SimConn(object):
         k = self.net.kernel
         if k.is_dead():
             raise EOFError()
-        k.block_until(lambda: bool(self.inbox) or not self._peer_open(), "pipe.recv")
-        if self.inbox:
-            return pickle.loads(self.inbox.pop(0))
+        k.block_until(lambda: bool(self.rchan.inbox) or not self._can_be_written(), "pipe.recv")
+        if self.rchan.inbox:
+            return pickle.loads(self.rchan.inbox.pop(0))
         raise EOFError()
 
     def poll(self, timeout=0.0):
@@ -164,12 +205,20 @@ class SimConn(object):
         if k.is_dead():
             return False
         if timeout is None:
-            return k.block_until(lambda: bool(self.inbox), "pipe.poll")
-        return k.block_until(lambda: bool(self.inbox), "pipe.poll", timeout)
+            return k.block_until(lambda: bool(self.rchan.inbox), "pipe.poll")
+        return k.block_until(lambda: bool(self.rchan.inbox), "pipe.poll", timeout)
 
     def close(self):
-        me = self.net.kernel.me()
-        self.holders.discard(me)
+        self.open = False
+        self.wchan.writers.discard(self)
+
+    def __del__(self):
+        # a Connection whose last reference disappears is closed (no scheduling, no tape draw)
+        try:
+            self.open = False
+            self.wchan.writers.discard(self)
+        except Exception:
+            pass
 
     def fileno(self):
         return id(self) & 0xFFFF
@@ -196,19 +245,30 @@ class SimProcess(object):
             return
         assert self.task is None, "cannot start a process twice"
         parent = k.me()
+        box = {}
 
         def body():
-            self._target(*self._args, **self._kwargs)
+            self._child_handles = box.pop("handles")       # keeps the inherited descriptors open
+            target, args, kwargs = box.pop("call")
+            target(*args, **kwargs)
         self.task = k.spawn(self.name, body)
         self.pid = len(self.net.procs) + 1000
-        # fork: the child inherits every descriptor its parent holds
-        for c in self.net.conns:
-            if parent in c.holders:
-                c.holders.add(self.task)
+        # fork: the child gets its own duplicate of every descriptor its parent holds ...
+        dups = {}
+        for c in list(self.net.conns):
+            if c.open and c.owner is parent:
+                dups[id(c)] = c._dup(self.task)
+        # ... and the handles among its arguments are the child's duplicates
+        args = tuple(dups.get(id(a), a) if isinstance(a, SimConn) else a for a in self._args)
+        box["handles"] = list(dups.values())
+        box["call"] = (self._target, args, self._kwargs)
+        # like multiprocessing.Process.start(): do not keep the arguments alive in the parent
+        del self._target, self._args, self._kwargs
 
         def on_exit(task, normal, net=self.net):
-            for c in net.conns:
-                c.holders.discard(task)
+            for c in list(net.conns):
+                if c.owner is task:
+                    c.close()
         self.task.on_exit.append(on_exit)
         self.net.stats["started"] += 1
         k.yield_point("process.start")
